@@ -21,7 +21,7 @@ from ..runner import Obligation, Result
 P = "C05"
 ASSUMPTIONS = [
     "handlers are stateless (emissions depend only on entity, event kind and the fuel carried by the event), so a permutation of equal-timestamp deliveries cannot change what is emitted",
-    "cross-partition emits carry delay >= the declared min_latency of the link (precondition of the statement); links have latency=None and packet_loss=0 so the event's own timestamp is used",
+    "cross-partition emits carry delay >= the declared min_latency of the link (precondition of the statement); packet_loss=0; links either have latency=None (the event's own timestamp is used) or a constant latency distribution equal to the delay the model itself uses for cross-partition emits (so the sequential run is still the reference); link latency distributions are only combined with min latencies on the dyadic tick grid, whose float seconds are exact",
     "every pair of partitions that communicates is linked (validation demands it)",
     "deliveries later than end_time are ignored on both sides (an event later than end_time is not live; both engines deliver a few such events)",
     "the OS thread schedule of the worker pool is not owned by the harness: each case is run with max_workers in {1, #partitions}; the algorithm only shares state at barriers",
@@ -63,7 +63,10 @@ def model_strategy(draw, tier, linked=True):
             "srcbits": draw(st.sampled_from([0, 0, 0, 1, 2, 3, 5, 6, 63])),
             # which ordered pairs of partitions are linked: every pair, a one-way chain p0->p1->p2.., everything into p0 only
             # (p0 is a pure sink with its own local work), or a generated subset of ordered pairs
-            "topo": draw(st.sampled_from(["all", "all", "chain", "sink0", "subset"])), "topobits": draw(st.integers(0, 4095))}     # which entities are registered as partition *sources*
+            "topo": draw(st.sampled_from(["all", "all", "chain", "sink0", "subset"])), "topobits": draw(st.integers(0, 4095)),
+            # links carry their own latency distribution (constant L + x ticks): the coordinator re-stamps every cross-partition
+            # event with send time + that latency, so the model emits its cross events with exactly that delay
+            "linklat": draw(st.sampled_from([None, None, None, 0, 1, 3]))}     # which entities are registered as partition *sources*
 
 
 def lat_ns(case):
@@ -123,6 +126,13 @@ def allowed_links(case, names):
     return set(pairs)
 
 
+def linklat_of(case):
+    """Constant link latency in extra ticks, or None. Only with tick-based (dyadic) min latencies, whose float seconds are exact."""
+    if case.get("linklat") is None or case["lat"][0] != "t":
+        return None
+    return int(case["linklat"])
+
+
 def build(case):
     """Fresh entities + initial events for one execution. Returns (entities, initial_events, sent_cross)."""
     from happysimulator import Entity, Event, Instant
@@ -143,7 +153,10 @@ def build(case):
             cands = [j for j in range(n) if (part[src], part[j]) in links] or [j for j in range(n) if part[j] == part[src]]
             tgt = cands[em["tgt"] % len(cands)]
         dt = em["dt"] * TICK + em.get("j", 0)
-        if part[tgt] != part[src]:
+        if part[tgt] != part[src] and linklat_of(case) is not None:
+            dt = L + linklat_of(case) * TICK
+            stats["cross"] += 1
+        elif part[tgt] != part[src]:
             dt += L
             stats["cross"] += 1
         return Event(time=Instant(now + dt), event_type=KINDS[em["kind"] % 3], target=ents[tgt], context={"fuel": fuel})
@@ -243,8 +256,12 @@ def run_parallel(case, workers_all):
     links = []
     if case.get("linked", True):
         L = lat_ns(case) / 1e9
+        lat = None
+        if linklat_of(case) is not None:
+            from happysimulator.distributions.constant import ConstantLatency
+            lat = ConstantLatency((lat_ns(case) + linklat_of(case) * TICK) / 1e9)
         for (a, b) in sorted(allowed_links(case, set(names))):
-            links.append(PartitionLink(f"p{a}", f"p{b}", min_latency=L))
+            links.append(PartitionLink(f"p{a}", f"p{b}", min_latency=L, latency=lat))
     end = end_ns_of(case)
     kw = {"end_time": Instant(end)} if end is not None else {}
     win, _ = window_s(case)
@@ -313,7 +330,7 @@ def execute_linked(case):
     r.labels += [l for l, c in (("cross-traffic", cross > 0), ("end-set", end is not None), ("win:" + case["win"], True),
                                 ("workers:1" if case.get("workers") else "workers:all", True),
                                 ("decimal-latency", case["lat"][0] == "ms"), ("entities-as-sources", bool(case.get("srcbits"))),
-                                ("topo:" + str(case.get("topo", "all")), True)) if c]
+                                ("topo:" + str(case.get("topo", "all")), True), ("link-latency-distribution", linklat_of(case) is not None)) if c]
     r.nontrivial = cross > 0 and sum(len(v) for v in seq.values()) >= 4
     r.target = float(min(cross, 20))
     return r
